@@ -229,6 +229,7 @@ class Expected:
         self.group_order = {}  # group name -> ordered member base names
         self.total_len = None
         self.counts = {}  # every integer attribute / bit flag by name, whatever the bitfield view (group counts)
+        self.group_counts = {}  # top-level group name -> number of repeats the definition prescribes
         self.leaves = {}  # top-level field / flag name -> {"raw": undecoded value, "typ", "scale"[, "width"]}
 
 
@@ -348,6 +349,7 @@ def expected_layout(ex, defn, payload_rope, pbf, mode_key=None):
                 N = cv
                 if mode_key == ("SET", b"\x10\x02") and "calibTtagValid" in exp.counts:
                     N = mk_int(zint(N) + z3.If(zint(exp.counts["calibTtagValid"]) != 0, 1, 0))
+            exp.group_counts[e.name] = N
             _family_specs(ex, exp, e, off, G, N, pbf, view, decode, bits, depth_idx=())
             off = mk_off(off, zint(N) * G if not (isinstance(N, int)) else N * G)
     exp.total_len = off
